@@ -21,7 +21,7 @@ def tableC03 : List (String × Rd String) := [
   ("spec.Beta.cdf_real", dx rd_Beta Spec.Beta.cdf),
   ("spec.Gaussian.cdf_real", dx rd_Gaussian Spec.Gaussian.cdf),
   ("spec.LogNormal.cdf_real", dx rd_LogNormal Spec.LogNormal.cdf),
-  ("spec.DiscreteUniform.cdf_real", dx rd_DiscreteUniform Spec.DiscreteUniform.cdf),
+  ("spec.DiscreteUniform.cdf_real", dx rd_DiscreteUniform Spec.DiscreteUniform.cdf03),
   ("spec.Bernoulli.cdf_bool", db rd_Bernoulli Spec.Bernoulli.cdf),
   ("spec.Bernoulli.cdf_nat", dn rd_Bernoulli Spec.Bernoulli.cdfNat),
   ("spec.Geometric.cdf_nat", dn rd_Geometric Spec.Geometric.cdf),
